@@ -20,9 +20,13 @@ def _contains_cut(exp: Model) -> bool:
     # NOTE: an optional or closure that saw a cut raises when its body then
     #   fails; an optional around it is what absorbs that failure
     from .basic import Cut
+    from .rulelike import RuleInclude
 
     if isinstance(exp, Cut):
         return True
+    # NOTE: a rule include stands for the right-hand side of the rule
+    if isinstance(exp, RuleInclude) and isinstance(exp.exp, Model):
+        return _contains_cut(exp.exp)
     return any(_contains_cut(c) for c in exp.children() if isinstance(c, Model))
 
 
